@@ -22,12 +22,51 @@ def main():
     chk = common.Check(pid, a.tier, seed)
     try:
         if a.replay:
-            return mod.replay(chk, a.replay)
+            if hasattr(mod, "replay"):
+                return mod.replay(chk, a.replay)
+            return generic_replay(pid, a.replay)
         mod.run(chk)
     except common.BuildError as e:
         print("BUILD-ERROR %s: %s" % (pid, str(e)[-4000:]))
         return 2
     return chk.finish()
+
+
+def generic_replay(pid, path):
+    """re-run the recorded query on a rebuild of /repo's working tree and print what the implementation answers now"""
+    import json
+    import shutil
+    rec = json.load(open(path))
+    rp = rec.get("replay", {})
+    print("REPLAY property=%s: %s" % (pid, rec.get("what", rec.get("kind", ""))))
+    if rec.get("kind") == "proof-obligation" or "probe_line" not in rp:
+        for k, v in rp.items():
+            if k != "world":
+                print("  %s: %s" % (k, str(v)[:400]))
+        if rec.get("kind") == "proof-obligation":
+            ok, ths, axioms, closed, log = common.check_property_file(pid)
+            print("  Properties_%s.v %s" % (pid, "checks" if ok else "does not check"))
+            if not ok:
+                print(log[-2000:])
+            return 0 if ok else 1
+        return 0
+    common.build_repo()
+    d = os.path.join(common.WORK, "replay_%d" % os.getpid())
+    os.makedirs(d, exist_ok=True)
+    lines = []
+    if "world" in rp:
+        wp = os.path.join(d, "w.wb")
+        json.dump(rp["world"], open(wp, "w"))
+        lines.append("world %s %s %d" % (rp.get("slot", 0), wp, rec.get("seed", 1)))
+    lines.append(rp["probe_line"])
+    out = common.run_probe(lines, cwd=d)
+    for l, o in zip(lines, out):
+        print("  %s\n    -> %s" % (l[:200], " ".join(str(common.unhex(t)) if t not in ("ok", "throw") and not t.startswith("error") else t for t in o.split())[:600]))
+    for k in ("expected", "got"):
+        if k in rp:
+            print("  recorded %s: %s" % (k, rp[k]))
+    shutil.rmtree(d, ignore_errors=True)
+    return 0
 
 
 def setup():
